@@ -402,6 +402,7 @@ func (c *container) recvAckReply(name string) error {
 	return nil
 }
 func (c *container) recvReply() (reply, unixsocket.Msg, error) {
+	verifPoint(vpHostCallerRecv, 0)
 	select {
 	case <-c.done:
 		// a reply received just before the socket failed is still queued: nobody will take it,
